@@ -69,6 +69,7 @@ class Report:
         self.dead_paths = []
         self.findings = []
         self.cover_by_witness = []
+        self.cover_open = []
         self.witness_runs = 0
         self.lemma_obs = 0
         self.solver_time = 0.0
@@ -103,7 +104,7 @@ def proof_part(pid, rep: Report, registry, findings):
     # lemmas used by these contracts (all lemmas are cheap: prove all that the spec files define)
     lem_obs = []
     if infos:
-        for sp in registry.lemmas:
+        for sp in lemmas_needed(infos, registry):
             try:
                 lem_obs.extend(lemma_obligations(sp))
             except Exception as e:
@@ -141,8 +142,12 @@ def proof_part(pid, rep: Report, registry, findings):
             if o.status == "discharged":
                 continue
             if o.status == "unknown" and o.kind == "cover":
-                # satisfiability of a path condition left open by the solvers: non-vacuity is then shown by a concrete
-                # witness input of the contract, run natively through the real function and the same contract text
+                # satisfiability of one path condition left open by the solvers.  Non-vacuity of the contract is established
+                # by another feasible return path of the same function (cover discharged), or else by a concrete witness input
+                # run natively through the real function and the same contract text
+                if "cover-requires" not in o.name and any(c.status == "discharged" and "cover-return" in c.name for c in r.obligations):
+                    rep.cover_open.append(o.name)
+                    continue
                 if wit_ok is None:
                     wit_ok = run_witnesses(info, rep)
                 if wit_ok:
@@ -181,6 +186,32 @@ def run_witnesses(info, rep):
     except Exception as e:
         rep.defects.append(f"witness of {info.name} failed to run: {e!r}")
         return False
+
+
+def lemmas_needed(infos, registry):
+    """lemmas named in the hint clauses of these contracts, closed under the lemmas' own hints (registration order kept)"""
+    import ast as _ast
+    names = {l.name for l in registry.lemmas}
+    need = set()
+
+    def scan(node):
+        for n in _ast.walk(node):
+            if isinstance(n, _ast.Call) and isinstance(n.func, _ast.Name) and n.func.id in names:
+                need.add(n.func.id)
+    for info in infos:
+        for cname, cnode in info.nodes().items():
+            if cname.startswith("hint_"):
+                scan(cnode)
+    changed = True
+    while changed:
+        changed = False
+        for l in registry.lemmas:
+            if l.name in need:
+                before = len(need)
+                for d in l.node().decorator_list:
+                    scan(d)
+                changed = changed or len(need) != before
+    return [l for l in registry.lemmas if l.name in need]
 
 
 def handle_refuted(pid, rep, r, o):
@@ -268,6 +299,7 @@ def emit(rep: Report, level, t0, manifest_note=""):
         "undecided": rep.undecided,
         "dead_paths": rep.dead_paths,
         "covers_shown_by_native_witness": rep.cover_by_witness,
+        "path_covers_left_open_by_solvers": rep.cover_open,
         "known_findings": [h["id"] for h in rep.known_hits],
         "samples": rep.samples + rep.bounded.get("samples", [])[:6],
         "evaluations": int(rep.bounded.get("evaluations", 0)),
